@@ -450,7 +450,7 @@ package hashgraph
 
 //@ iface func (s Store) Reset(frame *Frame) error
 //@   requires frame != nil
-//@   modifies G_events(s), G_last(s), G_lastIdx(s), G_rep(s), G_fault(s), G_miss(s), G_blocks(s), G_pset(s), G_psetOK(s), G_bodies(s), G_lastBlock(s), G_rounds(s), G_frames(s)
+//@   modifies G_events(s), G_last(s), G_lastIdx(s), G_rep(s), G_fault(s), G_miss(s), G_blocks(s), G_pset(s), G_psetOK(s), G_psetFloor(s), G_bodies(s), G_lastBlock(s), G_rounds(s), G_frames(s)
 
 //@ func (f *Frame) SortedFrameEvents() []*FrameEvent
 //@   safety on
@@ -488,6 +488,10 @@ package hashgraph
 //@ ghost field Store blocks gmap[int, *Block]
 //@ ghost field Store pset gmap[int, *peers.PeerSet]
 //@ ghost field Store psetOK bool
+// psetFloor: the smallest round a validator set was recorded for (meaningful while psetOK). A lookup below it
+// returns the first recorded set, so recording a set at an even smaller round changes the answer for the rounds
+// below the old floor: SetPeerSet keeps earlier rounds unchanged only from the floor up.
+//@ ghost field Store psetFloor int
 //   bodies  index -> the block body as it was when the block was last stored (what a persistent store keeps)
 //@ ghost field Store bodies gmap[int, BlockBody]
 //@ ghost field Store lastBlock int
@@ -846,9 +850,10 @@ package hashgraph
 
 //@ iface func (s Store) SetPeerSet(round int, peers *peers.PeerSet) error
 //@   requires peers != nil
-//@   modifies G_pset(s), G_psetOK(s), G_rep(s), G_fault(s)
+//@   modifies G_pset(s), G_psetOK(s), G_psetFloor(s), G_rep(s), G_fault(s)
 //@   ensures[at]      ret0 == nil ==> G_psetOK(s) && G_pset(s)[round] == peers
-//@   ensures[earlier] forall r int :: r < round ==> G_pset(s)[r] == old(G_pset(s))[r]
+//@   ensures[earlier] forall r int :: r < round && old(G_psetOK(s)) && old(G_psetFloor(s)) <= r ==> G_pset(s)[r] == old(G_pset(s))[r]
+//@   ensures[floor]   (ret0 == nil ==> G_psetFloor(s) == __ite(old(G_psetOK(s)) && old(G_psetFloor(s)) <= round, old(G_psetFloor(s)), round)) && (ret0 != nil ==> G_psetFloor(s) == old(G_psetFloor(s)))
 //@   ensures[refuse]  ret0 != nil ==> __eq(G_pset(s), old(G_pset(s))) && G_psetOK(s) == old(G_psetOK(s))
 
 // ------------------------------------------------------------------------------------------------
@@ -917,7 +922,7 @@ package hashgraph
 //@   ensures[memo]  h.MemoOK()
 //@   ensures[queue] h.PendingRounds == old(h.PendingRounds) && h.PendingRounds.wf() && h.PendingSignatures == old(h.PendingSignatures)
 //@   loop 1 invariant[memo] h.MemoOK()
-//@   callback commitCallback modifies any Block.Body, anymap map[string]string, G_blocks(h.Store), G_bodies(h.Store), G_lastBlock(h.Store), G_pset(h.Store), G_psetOK(h.Store), G_rep(h.Store), G_fault(h.Store), h.AnchorBlock, anyptr int
+//@   callback commitCallback modifies any Block.Body, anymap map[string]string, G_blocks(h.Store), G_bodies(h.Store), G_lastBlock(h.Store), G_pset(h.Store), G_psetOK(h.Store), G_psetFloor(h.Store), G_rep(h.Store), G_fault(h.Store), h.AnchorBlock, anyptr int
 //@   call NewBlockFromFrame assert[index]   __arg(0) == G_lastBlock(h.Store) + 1
 //@   call GetFrame          assert[decided] r.Decided && __arg(0) == r.Index
 //@   ensures[processed-prefix] len(processedRounds) <= old(len(h.PendingRounds.sortedItems)) && (forall k int :: 0 <= k && k < len(processedRounds) ==> processedRounds[k] == old(h.PendingRounds.sortedItems)[k].Index && old(h.PendingRounds.sortedItems)[k].Decided)
@@ -972,7 +977,7 @@ package hashgraph
 
 //@ func (h *Hashgraph) Init(peerSet *peers.PeerSet) error
 //@   requires h != nil && peerSet != nil
-//@   modifies G_pset(h.Store), G_psetOK(h.Store), G_rep(h.Store), G_fault(h.Store)
+//@   modifies G_pset(h.Store), G_psetOK(h.Store), G_psetFloor(h.Store), G_rep(h.Store), G_fault(h.Store)
 
 // ConsensusReady: what every stage of the pipeline needs from the hashgraph object (kept by every stage).
 //@ ghost func (h *Hashgraph) ConsensusReady() bool { return h.MemoOK() && h.PendingRounds != nil && h.PendingRounds.wf() && h.PendingSignatures != nil && h.PendingSignatures.items != nil }
@@ -1057,7 +1062,11 @@ package hashgraph
 // `ghostset` is the ghost code that maintains the view. coupled(): every entry of a cache is the view's entry for
 // that key (the caches may forget - eviction - but never invent or alter), and the counters agree.
 // Encapsulation (the store's internal objects are not reachable from its clients) is assumed.
-//@ ghost func (s *InmemStore) coupled() bool { return s.roundCache != nil && s.blockCache != nil && s.frameCache != nil && s.eventCache != nil && s.roundCache != s.blockCache && s.roundCache != s.frameCache && s.roundCache != s.eventCache && s.blockCache != s.frameCache && s.blockCache != s.eventCache && s.frameCache != s.eventCache && G_lastBlock(s) == s.lastBlock && s.roundsCoupled() && s.blocksCoupled() && s.framesCoupled() && s.eventsCoupled() && s.participantEventsCache != nil && s.participantEventsCache.wf() }
+//@ ghost func (s *InmemStore) coupled() bool { return s.roundCache != nil && s.blockCache != nil && s.frameCache != nil && s.eventCache != nil && s.roundCache != s.blockCache && s.roundCache != s.frameCache && s.roundCache != s.eventCache && s.blockCache != s.frameCache && s.blockCache != s.eventCache && s.frameCache != s.eventCache && G_lastBlock(s) == s.lastBlock && s.roundsCoupled() && s.blocksCoupled() && s.framesCoupled() && s.eventsCoupled() && s.participantEventsCache != nil && s.participantEventsCache.wf() && s.psCoupled() && s.roots != nil }
+// psCoupled: the peer-set view is what the cache's lookup returns: for a round below the first recorded one the first
+// set, otherwise the set recorded at the greatest round not above it; every recorded set is well-formed.
+//@ ghost func (s *InmemStore) psCoupled() bool { return s.peerSetCache != nil && s.peerSetCache.wf() && s.peerSetCache.repertoireByPubKey != nil && s.peerSetCache.repertoireByID != nil && s.peerSetCache.firstRounds != nil && G_psetOK(s) == (len(s.peerSetCache.rounds) > 0) && (len(s.peerSetCache.rounds) > 0 ==> G_psetFloor(s) == s.peerSetCache.rounds[0]) && (forall i int :: 0 <= i && i < len(s.peerSetCache.rounds) ==> s.peerSetCache.peerSets[s.peerSetCache.rounds[i]].WF()) && s.psView() }
+//@ ghost func (s *InmemStore) psView() bool { return (forall r int :: len(s.peerSetCache.rounds) > 0 && r < s.peerSetCache.rounds[0] ==> G_pset(s)[r] == s.peerSetCache.peerSets[s.peerSetCache.rounds[0]]) && (forall r int, k int :: 0 <= k && k < len(s.peerSetCache.rounds) && s.peerSetCache.rounds[k] <= r && (k == len(s.peerSetCache.rounds)-1 || r < s.peerSetCache.rounds[k+1]) ==> G_pset(s)[r] == s.peerSetCache.peerSets[s.peerSetCache.rounds[k]]) }
 //@ ghost func (s *InmemStore) eventsCoupled() bool { return forall k string :: __in(interface{}(k), common.G_m(s.eventCache)) ==> __in(k, G_events(s)) && common.G_m(s.eventCache)[interface{}(k)] == interface{}(G_events(s)[k]) && G_events(s)[k] != nil }
 //@ ghost func (s *InmemStore) roundsCoupled() bool { return forall r int :: __in(interface{}(r), common.G_m(s.roundCache)) ==> __in(r, G_rounds(s)) && common.G_m(s.roundCache)[interface{}(r)] == interface{}(G_rounds(s)[r]) && G_rounds(s)[r] != nil && G_rounds(s)[r].CreatedEvents != nil }
 //@ ghost func (s *InmemStore) blocksCoupled() bool { return forall i int :: __in(interface{}(i), common.G_m(s.blockCache)) ==> __in(i, G_blocks(s)) && common.G_m(s.blockCache)[interface{}(i)] == interface{}(G_blocks(s)[i]) && G_blocks(s)[i] != nil && G_blocks(s)[i].Body.Index == i && G_blocks(s)[i].Signatures != nil }
@@ -1121,6 +1130,7 @@ package hashgraph
 //@   modifies pec.participants, any common.RollingIndexMap.keys, anymap map[uint32]*common.RollingIndex
 //@   ensures[wf] pec.wf()
 //@   ensures[kept] forall i int :: 0 <= i && i < old(len(pec.participants.Peers)) ==> pec.participants.Peers[i] == old(pec.participants.Peers)[i]
+//@   ensures[grow] len(pec.participants.Peers) >= old(len(pec.participants.Peers)) && len(pec.participants.Peers) <= old(len(pec.participants.Peers)) + 1
 
 //@ func (pec *ParticipantEventsCache) participantID(participant string) (uint32, error)
 //@   requires pec != nil && pec.wf()
@@ -1183,3 +1193,20 @@ package hashgraph
 //@   ensures[events-on-success] ret0 == nil ==> __eq(G_events(s), __upd(old(G_events(s)), HexOf(event), event))
 //@   ensures[events-on-refusal] ret0 != nil ==> __eq(G_events(s), old(G_events(s)))
 //@   ensures[coupled] s.coupled()
+
+// Peer sets: GetPeerSet/SetPeerSet against the Store contracts.
+//@ func (s *InmemStore) GetPeerSet(round int) (*peers.PeerSet, error)
+//@   implements Store.GetPeerSet
+//@   requires s != nil && s.coupled()
+//@   modifies nothing
+
+//@ func (s *InmemStore) addParticipant(p *peers.Peer) error
+//@   requires s != nil && s.participantEventsCache != nil && s.participantEventsCache.wf() && peers.PeerOK(p) && s.roots != nil && len(s.participantEventsCache.participants.Peers) < 2147483647
+//@   modifies s.participantEventsCache.participants, any common.RollingIndexMap.keys, anymap map[uint32]*common.RollingIndex, s.roots[*]
+//@   ensures[wf] s.participantEventsCache.wf() && len(s.participantEventsCache.participants.Peers) <= old(len(s.participantEventsCache.participants.Peers)) + 1
+
+// InmemStore.SetPeerSet is NOT verified against Store.SetPeerSet: re-establishing the lookup view after an insertion
+// into the sorted round table (and the separation of the repertoire maps from the stored sets' maps) did not
+// discharge within the solver budget. What the attempt did establish: Store.SetPeerSet's "earlier rounds unchanged"
+// clause was too strong as first written (a lookup below the first recorded round returns the first set, so
+// recording an even earlier round changes it) - it now holds from the recorded floor up (G_psetFloor).
